@@ -301,7 +301,7 @@ pub fn run(ctx: &Ctx) -> (Report, Meta) {
     }
 
     // ------------------------------------------------------------------ (3a) local order
-    let nprob = ctx.size(8, 32);
+    let nprob = ctx.size(8, 64);
     for &m in [Method::RK4, Method::RK23, Method::DOPRI5, Method::DOP853, Method::RADAU].iter() {
         let mname_ = mname(m);
         let p = order_of(m);
